@@ -65,6 +65,10 @@ class Prop:
             cs.append(Case('conc own %d %d %d %d ;; %s' % (G, iters, procs, rng.randrange(10 ** 6), ' ; '.join(us)), 'own-objects-with-notes'))
             us = rng.sample(proj, 6)
             cs.append(Case('conc shared %d %d %d %d ;; %s' % (G, iters, procs, rng.randrange(10 ** 6), ' ; '.join(us)), 'shared-object'))
+            # regex schemas are schema objects too: the same six operations on shared regex objects next to shared projects
+            rx = [u for u in pool if u.startswith('R ')]
+            us = rng.sample(rx, min(4, len(rx))) + rng.sample(proj, 2)
+            cs.append(Case('conc shared %d %d %d %d ;; %s' % (G, iters, procs, rng.randrange(10 ** 6), ' ; '.join(us)), 'shared-regex-object'))
         return cs
 
     def run_impl(self, lines):
